@@ -522,10 +522,13 @@ def justBeforeDeath (v : VSock) (c : Ctx) (err : Option VErr) : VSock × Ctx :=
     | .error _ => (v, c)        -- "error sending FIN" is only traced; state changes of the failed send are none
   else (v, c)
 
+/-- The FIN takes the number after the last queued segment (`next_seq_nr()`), not `seq_nr`: re-sending segments
+after an RTO sets `seq_nr` back to one past the segment just re-sent (D26). -/
 def transitionToFinWait1 (v : VSock) : VSock :=
   match v.state with
   | .established | .synReceived | .synAckSent _ =>
-    { v with state := .finWait1 v.seqNr, seqNr := wadd v.seqNr 1 }
+    let fin := wadd v.segs.sndUna (v.segs.segs.length % 65536)
+    { v with state := .finWait1 fin, seqNr := wadd fin 1 }
   | _ => v
 
 /-- Outcome of the per-(state, packet type) validation at the top of `process_incoming_message`
